@@ -560,17 +560,52 @@ class SimPopen:
     def duplicate_for_child(self, fd):
         return K.dup_to(fd, self.proc)
 
-    def poll(self, flag=None):
-        if self.returncode is None and self.proc.returncode is not None:
-            self.returncode = self.proc.returncode
+    # poll()/wait() follow multiprocessing.popen_fork.Popen line by line over a model of waitpid(2): an exited child is reaped by
+    # exactly ONE waitpid call; every other call - also one that was already blocked when the child died - fails with ECHILD, which
+    # Popen.poll() turns into "return None" WITHOUT setting returncode. Only the reaping thread sets returncode, after the system
+    # call has returned (a scheduling point lies in between: the GIL was released during the call). Several threads calling
+    # exitcode / is_alive / join on one Process object therefore see what they see on a real system
+    # (conformance/real_c12_waitpid_race.py).
+    def _waitpid(self, nohang):
+        sim, me = cur()
+        sim.yield_point(me, 'waitpid')
+        pr = self.proc
+        if getattr(pr, 'reaped', False):
+            return 'echild'
+        if pr.returncode is None:
+            if nohang:
+                return 'running'
+            sim.block(me, pr.exit_wait, None, 'waitpid')
+            if getattr(pr, 'reaped', False):
+                return 'echild'
+        pr.reaped = True
+        sim.count('waitpid_reaped')
+        return pr.returncode
+
+    def poll(self, flag=os.WNOHANG):
+        if self.returncode is None:
+            r = self._waitpid(flag == os.WNOHANG)
+            if r == 'echild':
+                K.sim.count('waitpid_echild')
+                return None
+            if r != 'running':
+                sim, me = cur()
+                sim.yield_point(me, 'waitpid-returned')
+                self.returncode = r
         return self.returncode
 
     def wait(self, timeout=None):
-        sim, me = cur()
-        sim.yield_point(me, 'waitpid')
-        if self.proc.returncode is None:
-            sim.block(me, self.proc.exit_wait, timeout, 'waitpid')
-        return self.poll()
+        if self.returncode is None:
+            if timeout is not None:
+                # multiprocessing.connection.wait([self.sentinel], timeout): the sentinel becomes readable when the child exits
+                sim, me = cur()
+                sim.yield_point(me, 'wait-sentinel')
+                if self.proc.returncode is None:
+                    sim.block(me, self.proc.exit_wait, timeout, 'wait-sentinel')
+                if self.proc.returncode is None:
+                    return None
+            return self.poll(os.WNOHANG if timeout == 0.0 else 0)
+        return self.returncode
 
     def _send_signal(self, sig):
         if self.proc.returncode is None:
